@@ -1,6 +1,6 @@
 """C16: both clients treat the feed as a byte stream (exactly-once, in order, survive malformed
 lines and disconnects). Recorded history -> offline checker."""
-import random, re, time
+import os, random, re, time
 
 import enc, procs, session
 from session import Inconclusive
@@ -44,6 +44,17 @@ MALFORMED["near_miss_framing"] = [
     b"*" + GHOST_HEX + b":\n",
     b"@" + GHOST_HEX + b";\n",           # another Beast-ASCII line type
     b"*" + GHOST_HEX[:14] + b" " + GHOST_HEX[14:] + b";\n",
+]
+# hex digits are 0-9 a-f A-F: a parser built on integer parsing would take "+A" for 0x0A
+GHOST2 = 0x0A0B0C
+GHOST2_HEX = enc.long_frame(17, 5, GHOST2, enc.me_ident(4, 0, "SIGNS")).hex().upper().encode()
+assert GHOST2_HEX[2:8] == b"0A0B0C"
+MALFORMED["near_miss_framing"] += [
+    b"*" + GHOST2_HEX[:2] + b"+A" + GHOST2_HEX[4:] + b";\n",
+    b"*" + GHOST2_HEX[:4] + b"+B" + GHOST2_HEX[6:] + b";\n",
+    b"*" + GHOST2_HEX[:2] + b"+A+B+C" + GHOST2_HEX[8:] + b";\n",
+    b"*0x" + GHOST2_HEX + b";\n",
+    b"*" + GHOST2_HEX + b"h;\n",
 ]
 SOUP_ALPHABET = b"*;*;8DAF09 \r"
 
@@ -172,6 +183,36 @@ def segment(rng, lines, seg_kind, delay_kind):
     return steps, midline
 
 
+VMON = None  # path of the vmon binary (set by main): renders frames with the repository's library
+
+
+def render_frames(hexes, scratch):
+    """The library's text for each hex string (None where it does not decode or is all zero)."""
+    import json, subprocess, tempfile
+    if not hexes:
+        return []
+    fd, path = tempfile.mkstemp(prefix="hex-", suffix=".txt", dir=scratch)
+    with os.fdopen(fd, "w") as f:
+        f.write("\n".join(hexes) + "\n")
+    try:
+        out = subprocess.run([VMON, "render", "--hex-file", path], capture_output=True, text=True, timeout=60)
+        if out.returncode != 0:
+            raise Inconclusive(f"vmon render failed: {out.stderr[-200:]}")
+        return json.loads(out.stdout)
+    finally:
+        os.unlink(path)
+
+
+def framed(d):
+    """Content between '*' and ';' of a feed line the way the clients frame it, or None."""
+    try:
+        t = d.decode("utf-8")
+    except UnicodeDecodeError:
+        return None
+    t = t.rstrip("\r\n")
+    return t[1:-1] if len(t) >= 2 and t.startswith("*") and t.endswith(";") else None
+
+
 def check_1090(col, binpath, rng, tag, seg_kind, delay_kind, malformed, scratch):
     lines, _ = build_feed(rng, rng.randint(20, 90), malformed)
     steps, midline = segment(rng, lines, seg_kind, delay_kind)
@@ -222,6 +263,42 @@ def check_1090(col, binpath, rng, tag, seg_kind, delay_kind, malformed, scratch)
             return
         if GHOST_HEX.decode().lower() in out.split("\n"):
             col.add("C16", f"C16|1090_malformed_line_taken_for_frame|{cls}", "a line that is not '*<hex>;' (missing, doubled or misplaced markers around decodable hex) was echoed as a frame", inp)
+        # the whole output: for every well-formed line its echo followed by the library's rendering of
+        # that frame, in feed order, and nothing else that looks like a frame. Lines that are framed but
+        # are no frames may leave their echo behind (and a CR LF terminated frame may be processed or not).
+        good_hex = [d[1:-2].decode() for k, d, *_ in lines if k in ("good", "other")]
+        texts = render_frames(good_hex, scratch)
+        expected = []
+        for h, t in zip(good_hex, texts):
+            expected.append(h.lower())
+            if t is not None:
+                expected += (t + "\n").split("\n")[:-1]
+        allowed = set()
+        bad_framed = [framed(d) for k, d, *_ in lines if k == "bad"]
+        bad_framed = [b for b in bad_framed if b is not None]
+        for b, t in zip(bad_framed, render_frames([b if all(c in "0123456789abcdefABCDEF" for c in b) and b else "zz" for b in bad_framed], scratch)):
+            allowed.add(b.lower())
+            if t is not None:
+                allowed.update((t + "\n").split("\n")[:-1])
+        out_lines = out.split("\n")
+        if out_lines and out_lines[-1] == "":
+            out_lines.pop()
+        if "" in allowed:
+            out_lines = [l for l in out_lines if l != ""]
+            expected = [l for l in expected if l != ""]
+        ptr = 0
+        stray = None
+        for l in out_lines:
+            if ptr < len(expected) and l == expected[ptr]:
+                ptr += 1
+            elif l in allowed:
+                continue
+            elif stray is None:
+                stray = l
+        col.count("output_lines_compared_1090", len(out_lines))
+        if got == want and (stray is not None or ptr < len(expected)):
+            what = f"unexpected output line {stray!r}" if stray is not None else f"output ends before {expected[ptr]!r}"
+            col.add("C16", f"C16|1090_output_differs_from_library_rendering|{cls}", f"every well-formed line was echoed once and in order, but the full output is not 'echo + rendering of that frame' for each of them: {what} (matched {ptr} of {len(expected)} expected lines)", inp)
         if got != want:
             # classify
             missing = [w for w in want if w not in got]
@@ -373,6 +450,17 @@ def check_radar(col, binpath, rng, tag, seg_kind, delay_kind, malformed, disconn
                 raise Inconclusive("Airplanes table not found after reconnect")
             compare_rows(col, rows, expect, cls + ("" if disconnect == "retry" else f"|disc={disconnect}"), dict(inp, lines2=[d.decode() for _, d, *_ in lines2]), "after_reconnect_tracked_aircraft_kept")
             col.count("reconnects_observed")
+            # the new connection is silent now ("however delayed"): the client must stay alive to its
+            # operator - a tab switch has to show up on screen
+            sess.key("F4")
+            t_end = time.monotonic() + 8
+            while time.monotonic() < t_end and not any("Total Airplanes" in l for l in sess.p.screen.text()):
+                sess.p.pump(0.2)
+            if sess.p.alive() and not any("Total Airplanes" in l for l in sess.p.screen.text()):
+                sess.key("F4")
+                sess.p.pump(3.0)
+                if sess.p.alive() and not any("Total Airplanes" in l for l in sess.p.screen.text()):
+                    col.add("C16", f"C16|radar_unresponsive_on_silent_feed_after_reconnect|disc={disconnect}", "after the reconnect the feed paused; radar did not react to a tab key within 11 s (its screen still shows the Airplanes tab)", inp)
         else:
             # wait for the close, then for the exit
             end = time.monotonic() + 30
@@ -409,6 +497,8 @@ def check_radar(col, binpath, rng, tag, seg_kind, delay_kind, malformed, disconn
 
 
 def main(a, lcol, col, run_all, scratch, START):
+    global VMON
+    VMON = a.vmon
     import vlib
     thorough = a.tier == "thorough"
     jobs = []
@@ -458,6 +548,6 @@ def main(a, lcol, col, run_all, scratch, START):
     col.sample({"scenario": "radar per_line/none/none", "what": "20-70 unique '*<hex>;' lines for 1-5 aircraft; per-aircraft Msgs column and last callsign compared after the feed; then server close -> exit status / terminal restored"})
     col.sample({"scenario": "1090 cut_in_hex/gt_timeout/none", "what": "every line cut in the middle of its hex digits with 70-150 ms pauses; stdout echo sequence must equal the sent sequence"})
     return vlib.finish(col, "C16", a.tier, a.seed, "fault_enumeration",
-        "each scenario = one fresh client process against a scripted TCP feed of unique '*<hex>;' lines: 9 segmentation kinds x 4 delay classes (below / around / above the 50 ms read timeout) x 19 malformed-line kinds (incl. near-miss framing of a decodable ghost frame: missing, doubled, misplaced markers) (each followed by sentinel lines) x 7 disconnect modes (close / close mid-line / abortive close (RST) / close+re-accept with --retry-tcp / drop mid-line + re-accept / RST + re-accept / server alive but not accepting for 13 s); 1090: stdout echo sequence == sent sequence; radar: per-aircraft Msgs column == lines sent, callsign == last identification line, tab title count, exit status and terminal state after a disconnect, counts continue after a reconnect; distinct_nontrivial = distinct (client, segmentation, delay, malformed, disconnect) cells run",
+        "each scenario = one fresh client process against a scripted TCP feed of unique '*<hex>;' lines: 9 segmentation kinds x 4 delay classes (below / around / above the 50 ms read timeout) x 19 malformed-line kinds (incl. near-miss framing of a decodable ghost frame: missing, doubled, misplaced markers) (each followed by sentinel lines) x 7 disconnect modes (close / close mid-line / abortive close (RST) / close+re-accept with --retry-tcp / drop mid-line + re-accept / RST + re-accept / server alive but not accepting for 13 s); 1090: stdout echo sequence == sent sequence, and the whole output == echo + the library's rendering of each well-formed frame (nothing else that looks like a frame); radar: per-aircraft Msgs column == lines sent, callsign == last identification line, tab title count, exit status and terminal state after a disconnect, counts continue after a reconnect; distinct_nontrivial = distinct (client, segmentation, delay, malformed, disconnect) cells run",
         ["delays are relative to a 50 ms timeout on a loaded machine: the number of mid-line pauses > 50 ms is what the plan requested, the property must hold for every schedule", "CRLF-terminated lines are not counted as well-formed lines"],
         a.verif, START, n, len(col.classes), extra={"fault_kinds": {"segmentations": SEGMENTATIONS, "delays": list(DELAYS), "malformed": malformed_kinds, "disconnect": ["close", "midline", "reset", "retry", "retry_midline", "retry_reset", "retry_backlog"]}}, min_evaluations=10)
